@@ -16,8 +16,10 @@ Unjudgeable(nb, total, p, q) == CutP(p, q) > 0 /\ nb * q = CutP(p, q) * total /\
 MatchChar(c, chars, icase) == \E k \in 1..Len(chars) : c = chars[k] \/ (icase /\ Lo(c) = Lo(chars[k]))
 \* rows not excluded by ignore-gaps / ignore-N-or-X of the alignment's own alphabet (either case)
 Counted(o, c, igaps, ins) == ~((igaps /\ c = GAP) \/ (ins /\ (c = AllChar(o) \/ c = Lo(AllChar(o)))))
-SiteNb(o, i, chars, icase, rev) ==
-  Cardinality({r \in 1..Len(o.rows) : MatchChar(o.rows[r].s[i], chars, icase) # rev})
+\* the matching rows AMONG the rows that are not excluded (with the inverted selection an excluded row is not a match
+\* either: a column A - - with the selection "not A" and gaps ignored holds one row, which does not match)
+SiteNb(o, i, chars, icase, rev, igaps, ins) ==
+  Cardinality({r \in 1..Len(o.rows) : Counted(o, o.rows[r].s[i], igaps, ins) /\ (MatchChar(o.rows[r].s[i], chars, icase) # rev)})
 SiteTotal(o, i, igaps, ins) == Cardinality({r \in 1..Len(o.rows) : Counted(o, o.rows[r].s[i], igaps, ins)})
 
 \* given the set Q of qualifying sites (1-based), the removed set in plain or ends mode
@@ -35,9 +37,9 @@ CleanSitesResult(o, Q, ends) ==
       rm    |-> [k \in 1..Cardinality(R) |-> SeqOfSet(R)[k] - 1],
       first |-> PrefixLen(Q, L), last |-> SuffixLen(Q, L)]
 CharSitesQ(o, chars, p, q, icase, igaps, ins, rev) ==
-  {i \in 1..Width(o) : Qualifies(SiteNb(o, i, chars, icase, rev), SiteTotal(o, i, igaps, ins), p, q)}
+  {i \in 1..Width(o) : Qualifies(SiteNb(o, i, chars, icase, rev, igaps, ins), SiteTotal(o, i, igaps, ins), p, q)}
 CharSitesUnjudgeable(o, chars, p, q, icase, igaps, ins, rev) ==
-  \E i \in 1..Width(o) : Unjudgeable(SiteNb(o, i, chars, icase, rev), SiteTotal(o, i, igaps, ins), p, q)
+  \E i \in 1..Width(o) : Unjudgeable(SiteNb(o, i, chars, icase, rev, igaps, ins), SiteTotal(o, i, igaps, ins), p, q)
 MajSitesQ(o, p, q, igaps, ins) ==
   {i \in 1..Width(o) : Qualifies(MaxOccur(o, i, igaps, ins), MaxTotal(o, i, igaps, ins), p, q)}
 MajSitesUnjudgeable(o, p, q, igaps, ins) ==
